@@ -14,7 +14,7 @@ func init() {
 func runC06(c *core.Check) {
 	c.Rule = "every MC_E1 AST x each free scope variable x (top-level mark with up to 3 same-typed alternate contents; mark nested on the first element with that element's content changed): both evaluations error-free and results different after UnmarkDeep => both results carry the mark. The same relation for hcldec.Decode of 10 body shapes built around the expression (attributes, BlockAttrs, defaults, dynamic blocks over list/tuple/map/single block, nested static blocks). Non-trivial = distinct source where some pair changed the result"
 	c.Assumes = []string{"pairs where either evaluation reports an error are outside the statement"}
-	streamTLC(c, core.TLCRun{Module: "MC_E1", Parts: 4, Consts: e1Consts(c), Timeout: minutes(25), KeepVars: []string{"e", "fv", "last"}},
+	streamTLC(c, core.TLCRun{Module: "MC_E1", NoPred: true, Parts: 4, Consts: e1Consts(c), Timeout: minutes(25), KeepVars: []string{"e", "fv", "last"}},
 		func(st core.State) { c06.Handle(c, st) })
 	// decodable bodies: the expression as attribute value, BlockAttrs value, default primary, dynamic for_each
 	// (list, tuple, single block, map with labels), content of generated and nested static blocks
@@ -22,6 +22,6 @@ func runC06(c *core.Check) {
 	if c.Tier == "thorough" {
 		bc = map[string]string{"MaxD": "2", "Level2": "\"core\""}
 	}
-	streamTLC(c, core.TLCRun{Module: "MC_E1", Parts: 4, Consts: bc, Timeout: minutes(30), KeepVars: []string{"e", "fv", "last"}},
+	streamTLC(c, core.TLCRun{Module: "MC_E1", NoPred: true, Parts: 4, Consts: bc, Timeout: minutes(30), KeepVars: []string{"e", "fv", "last"}},
 		func(st core.State) { c06.HandleBodies(c, st) })
 }
